@@ -1261,6 +1261,11 @@ class ConnectionBase(object):
             return False
 
         try:
+            # a packet older than the receive window can no longer be checked
+            # for duplication, and will never be acked. treat it as lost.
+            if self.bitfield_pkt.current_seqnum != 0 and \
+               self.bitfield_pkt.current_seqnum.diff(pkt.hdr.seq) > self.bitfield_pkt.nbits:
+                raise DuplicationError("stale packet: %d" % pkt.hdr.seq)
             # TODO: log warning for packet flooding
             # if inserting dropped unacked bits then those packets will time out
             # the user may want to know to slow down the sending rate
